@@ -837,6 +837,9 @@ class Exec:
             return ObjV(obj.cls, {'data': View(bid, z3.IntVal(0), 1, d.length)})
         if meth.startswith('_'):       # self._exp(...) : kernels reached through the instance
             return self.call_contract(meth, n, kw)
+        cal = self.callees.get('UTPM.' + meth)
+        if cal is not None and isinstance(obj, ObjV) and not n.args and not kw and hasattr(cal, 'apply_method'):
+            return cal.apply_method(self, obj, meth)          # x.cos(), x.exp(), ...: through the method's contract (a new object)
         raise Undecided('method .%s()' % meth)
 
     # ------------------------------------------------------------------ stores
